@@ -80,7 +80,7 @@ def run_ovb(case):
                 else:
                     target = STR if op[1] == "str" else overflow
                     n = max(0, target - len(model) + op[2])
-                n = min(n, 40000)
+                n = min(n, 1 << 20)
                 data = pat(appended, n)
                 appended += n
                 b.append(data)
@@ -295,9 +295,17 @@ def alphabet(overflow):
     return A
 
 
+BIG = [262143, 262144, 262145, 524289]  # around the 256 KiB internal copy block
+
+
+def big_alphabet():
+    return [["append", 262145], ["append", 524289], ["append", 1], ["peek", 262145], ["peek", 600000], ["peek", -1],
+            ["get", 262145], ["get", 1], ["skip", 262144, 1], ["file", 300000]]
+
+
 def op_strategy():
     sizes = st.one_of(st.integers(0, 12), st.sampled_from([8190, 8191, 8192, 8193, 4096, 20000, 20001]),
-                      st.integers(0, 30000))
+                      st.integers(0, 30000), st.integers(0, 30000), st.sampled_from(BIG + [600000]))
     return st.one_of(
         st.tuples(st.just("append"), sizes),
         st.tuples(st.just("append_rel"), st.sampled_from(["str", "ovf"]), st.integers(-2, 2)),
@@ -348,6 +356,8 @@ def jobs(tier, seed):
             js.append({"kind": "enum", "overflow": ov, "depth": depth, "shard": sh,
                        "nshards": nsh if tier == "thorough" else 3})
     js.append({"kind": "rofb_enum"})
+    for ov in (100, 300000, 1048576):
+        js.append({"kind": "big_enum", "overflow": ov, "depth": 3 if tier == "quick" else 4})
     n_hyp = 1500 if tier == "quick" else 15000
     for sh in range(16):
         js.append({"kind": "hyp", "which": "ovb", "n": n_hyp, "seed": derive_seed(seed, "ovb", sh)})
@@ -372,6 +382,13 @@ def run_job(job, col):
                 one({"kind": "ovb", "overflow": job["overflow"], "ops": [list(o) for o in ops]})
         col.exhaustive("all op histories of length <= %d over a %d-op alphabet, overflow in %r"
                        % (job["depth"], len(A), OVERFLOWS))
+    elif job["kind"] == "big_enum":
+        A = big_alphabet()
+        for d in range(1, job["depth"] + 1):
+            for ops in itertools.product(A, repeat=d):
+                one({"kind": "ovb", "overflow": job["overflow"], "ops": [list(o) for o in ops]})
+        col.exhaustive("all op histories of length <= %d over a %d-op alphabet with sizes around the 256 KiB copy block"
+                       % (job["depth"], len(A)))
     elif job["kind"] == "rofb_enum":
         for L in (0, 1, 2, 5):
             for start in range(0, L + 1):
